@@ -767,6 +767,9 @@ impl<'tcx> Cx<'tcx> {
         o.set("repr_align", repr.align.map(|a| a.bytes() as usize));
         o.set("repr_int", repr.int.is_some());
         o.set("generics", self.generics_names(did));
+        // variance of each generic parameter (in declaration order), as inferred by rustc
+        let vs: Vec<J> = tcx.variances_of(did).iter().map(|v| J::from(format!("{:?}", v))).collect();
+        o.set("variances", J::Arr(vs));
         o.set("preds", self.preds(did));
         let mut vars = Vec::new();
         for v in def.variants().iter() {
